@@ -125,6 +125,15 @@ Proof. destruct l; reflexivity. Qed.
 Lemma expr_list_emits d ts : emits (expr_list d ts) d [T_EL ts].
 Proof. apply emits_of_tree, expr_list_tree. Qed.
 
+(* `if len(xs) > 0 { "ExpressionList (children n)"; members } else { "ExpressionList" }` *)
+Lemma el_or_leaf_emits d ts :
+  emits (if nonempty ts then hdr d L_ExpressionList (length ts) :: nodes (S d) ts
+         else [leaf d L_ExpressionList]) d [T_EL ts].
+Proof.
+  destruct ts as [|t ts]; [apply emits_leaf|]. cbn [nonempty]. unfold T_EL.
+  apply emits_hdr; [reflexivity|apply emits_nodes].
+Qed.
+
 (* ---------------------------------------------------------------------------------------- *)
 (** * Header count and directly printed children of a block in forest form *)
 
@@ -478,43 +487,19 @@ Proof.
   destruct is_id; [apply part_id_emits|apply part_wrapped_emits].
 Qed.
 
-(* the INTENDED tree of a statistics kind in ALTER ... ADD / MODIFY STATISTICS; the printer emits
-   it only when the kind has no arguments (see [statistics_type_function_counts]) *)
+(* a statistics kind in ALTER ... ADD / MODIFY STATISTICS: always one ExpressionList child *)
 Definition stat_type_tree (f : fn_call) : rose := Node (L_Function (fn_name f)) [T_EL (fn_args f)].
 
 Lemma statistics_type_function_emits d f :
-  fn_args f = [] -> emits (explain_statistics_type_function d f) d [stat_type_tree f].
+  emits (explain_statistics_type_function d f) d [stat_type_tree f].
 Proof.
-  intros E. unfold explain_statistics_type_function, stat_type_tree. rewrite E. cbn [nonempty].
-  apply emits_hdr; [reflexivity|apply emits_leaf].
+  unfold explain_statistics_type_function, stat_type_tree.
+  apply emits_hdr; [reflexivity|apply el_or_leaf_emits].
 Qed.
 
-Lemma direct_children_cons hd x r :
-  direct_children (hd :: x :: r)
-  = (if Nat.eqb (indent x) (S (indent hd)) then 1 else 0) + direct_children (hd :: r).
-Proof. unfold direct_children. cbn [filter]. destruct (Nat.eqb (indent x) (S (indent hd))); reflexivity. Qed.
-
-(* ... and with arguments the kind's header says 1 while 1 + len(args) lines are printed directly
-   beneath it (the arguments land beside the ExpressionList, which itself claims them) *)
-Theorem statistics_type_function_counts d f :
-  fn_args f <> [] ->
-  header_count (explain_statistics_type_function d f) = 1 /\
-  direct_children (explain_statistics_type_function d f) = 1 + length (fn_args f).
-Proof.
-  intros Hne. unfold explain_statistics_type_function.
-  destruct (fn_args f) as [|a r] eqn:E; [contradiction|]. cbn [nonempty]. split; [reflexivity|].
-  rewrite direct_children_cons. cbn [indent hdr]. rewrite Nat.eqb_refl. f_equal.
-  rewrite <- direct_children_nrm, nrm_cons. unfold nodes. fold (render_forest (S d) (a :: r)).
-  rewrite nrm_forest. apply direct_children_forest. reflexivity.
-Qed.
-
-Corollary statistics_type_function_refuted d f :
-  fn_args f <> [] -> forall d' t, nrm (explain_statistics_type_function d f) <> render d' t.
-Proof.
-  intros Hne. apply not_tree_of_counts.
-  destruct (statistics_type_function_counts d f Hne) as [-> ->].
-  destruct (fn_args f); [contradiction|cbn [length]; lia].
-Qed.
+Theorem explain_statistics_type_function_tree d f :
+  nrm (explain_statistics_type_function d f) = render d (stat_type_tree f).
+Proof. apply tree_of_emits, statistics_type_function_emits. Qed.
 
 Definition stat_children (c : alter_command) : list rose :=
   when (nonempty (ac_stat_columns c)) [ident_list_tree (ac_stat_columns c)]
@@ -522,19 +507,15 @@ Definition stat_children (c : alter_command) : list rose :=
 
 Definition stat_tree (c : alter_command) : rose := Node L_Stat (stat_children c).
 
-Definition stat_types_plain (c : alter_command) : Prop :=
-  Forall (fun f => fn_args f = []) (ac_stat_types c).
-
 Lemma statistics_command_emits d c :
-  stat_types_plain c -> emits (explain_statistics_command d c) (S d) [stat_tree c].
+  emits (explain_statistics_command d c) (S d) [stat_tree c].
 Proof.
-  intros Hp. unfold explain_statistics_command, stat_tree.
+  unfold explain_statistics_command, stat_tree.
   apply emits_hdr; [unfold stat_children; rewrite app_length, !length_when1; reflexivity|].
   unfold stat_children. apply emits_app.
   - apply emits_when, ident_list_emits.
   - apply emits_when. unfold T_EL. apply emits_hdr; [symmetry; apply map_length|].
-    apply emits_flat_map_in. intros f Hf. apply statistics_type_function_emits.
-    unfold stat_types_plain in Hp. rewrite Forall_forall in Hp. apply Hp. exact Hf.
+    apply emits_flat_map. intros f. apply statistics_type_function_emits.
 Qed.
 
 Definition assignment_tree (a : assignment) : rose :=
@@ -634,15 +615,8 @@ Definition inv_alter_count_b (c : alter_command) : bool :=
 
 Definition inv_alter_count (c : alter_command) : Prop := inv_alter_count_b c = true.
 
-(* needed in addition for the block to be a tree: statistics kinds without arguments *)
-Definition inv_alter_shape (c : alter_command) : Prop :=
-  match ac_type c with
-  | AT_AddStatistics | AT_ModifyStatistics
-  | AT_DropStatistics | AT_ClearStatistics | AT_MaterializeStatistics => stat_types_plain c
-  | _ => True
-  end.
-
-Definition inv_alter (c : alter_command) : Prop := inv_alter_count c /\ inv_alter_shape c.
+(* nothing else is needed for the block to be a tree *)
+Definition inv_alter (c : alter_command) : Prop := inv_alter_count c.
 
 Ltac length_norm :=
   rewrite ?app_length, ?length_opt_block, ?length_opt_list, ?length_when1,
@@ -726,11 +700,10 @@ Ltac emits_auto :=
     | (apply emits_opt_block; intro) ].
 
 Lemma alter_body_emits d c :
-  inv_alter_shape c -> emits (alter_body d c) (S d) (alter_children c).
+  emits (alter_body d c) (S d) (alter_children c).
 Proof.
-  intros Hs. unfold alter_body, explain_alter_command, alter_children. cbn [tl].
-  unfold inv_alter_shape in Hs.
-  destruct (ac_type c); try solve [emits_auto]; try solve [apply statistics_command_emits; exact Hs].
+  unfold alter_body, explain_alter_command, alter_children. cbn [tl].
+  destruct (ac_type c); try solve [emits_auto]; try solve [apply statistics_command_emits].
   - (* ADD_INDEX *)
     apply emits_app; [|apply ident_if_emits].
     destruct (ac_index_def c) as [i|]; [|apply ident_if_emits].
@@ -754,18 +727,17 @@ Qed.
 
 (* the forest form: no condition on the tally *)
 Lemma explain_alter_command_forest d c :
-  inv_alter_shape c ->
   nrm (explain_alter_command d c)
   = mkLine d (L_AlterCommand (alter_type_label c)) (kcount (count_alter_command_children c))
     :: render_forest (S d) (alter_children c).
 Proof.
-  intros Hs. rewrite explain_alter_command_eq. apply forest_of_emits_pos, alter_body_emits, Hs.
+  rewrite explain_alter_command_eq. apply forest_of_emits_pos, alter_body_emits.
 Qed.
 
 Theorem explain_alter_command_tree d c :
   inv_alter c -> nrm (explain_alter_command d c) = render d (alter_tree c).
 Proof.
-  intros [Hc Hs]. rewrite explain_alter_command_forest by exact Hs.
+  intros Hc. rewrite explain_alter_command_forest.
   apply count_alter_command_children_correct in Hc. rewrite Hc. reflexivity.
 Qed.
 
@@ -774,11 +746,10 @@ Proof. intros H. apply emits_of_tree, explain_alter_command_tree, H. Qed.
 
 (* header = number of lines printed directly beneath, IFF the tally condition *)
 Theorem alter_counts_agree_iff d c :
-  inv_alter_shape c ->
-  (header_count (explain_alter_command d c) = direct_children (explain_alter_command d c)
-   <-> inv_alter_count c).
+  header_count (explain_alter_command d c) = direct_children (explain_alter_command d c)
+  <-> inv_alter_count c.
 Proof.
-  intros Hs. destruct (counts_of_forest _ _ _ _ _ (explain_alter_command_forest d c Hs)) as [-> ->].
+  destruct (counts_of_forest _ _ _ _ _ (explain_alter_command_forest d c)) as [-> ->].
   symmetry. apply count_alter_command_children_correct.
 Qed.
 
@@ -788,10 +759,10 @@ Proof. intros H. eapply check_lines_of_tree. apply explain_alter_command_tree, H
 
 (* outside the tally condition the block is not a tree, at any depth *)
 Corollary alter_not_tree d c :
-  inv_alter_shape c -> ~ inv_alter_count c ->
+  ~ inv_alter_count c ->
   forall d' t, nrm (explain_alter_command d c) <> render d' t.
 Proof.
-  intros Hs Hn. apply not_tree_of_counts. intros H. apply Hn. apply (alter_counts_agree_iff d c Hs). exact H.
+  intros Hn. apply not_tree_of_counts. intros H. apply Hn. apply (alter_counts_agree_iff d c). exact H.
 Qed.
 
 (* ---------------------------------------------------------------------------------------- *)
@@ -848,13 +819,6 @@ Proof. intros H. eapply check_lines_of_tree. apply explain_alter_query_tree, H. 
 (* ---------------------------------------------------------------------------------------- *)
 (** * CreateQuery: the pieces *)
 
-Lemma el_or_leaf_emits d ts :
-  emits (if nonempty ts then hdr d L_ExpressionList (length ts) :: nodes (S d) ts
-         else [leaf d L_ExpressionList]) d [T_EL ts].
-Proof.
-  destruct ts as [|t ts]; [apply emits_leaf|]. cbn [nonempty]. unfold T_EL.
-  apply emits_hdr; [reflexivity|apply emits_nodes].
-Qed.
 
 Definition engine_tree (e : engine) : rose :=
   Node (L_Function (en_name e)) (when (en_has_parens e) [T_EL (en_params e)]).
@@ -1470,21 +1434,6 @@ Lemma alter_modify_ttl_without_expression_refuted :
   header_count (explain_alter_command 0 w_modify_ttl_nil) = 0 /\
   direct_children (explain_alter_command 0 w_modify_ttl_nil) = 1 /\
   check_lines (explain_alter_command 0 w_modify_ttl_nil) = false.
-Proof. vm_compute. repeat split. Qed.
-
-(* ALTER TABLE t ADD STATISTICS a TYPE tdigest(5)     -- a syntactically valid statement:
-   the AlterCommand tally is right (1 = 1) but inside, "Function tdigest (children 1)" has two
-   lines directly beneath it and "ExpressionList (children 1)" none: the argument is printed at
-   the depth of the ExpressionList *)
-Definition w_statistics_type_args : alter_command :=
-  set_stats (empty_alter AT_AddStatistics) [bytes_of "a"]
-            [ {| fn_name := bytes_of "tdigest"; fn_args := [Node (bytes_of "Literal UInt64_5") []] |} ].
-
-Lemma alter_statistics_type_arguments_refuted :
-  inv_alter_count w_statistics_type_args /\
-  header_count (explain_alter_command 0 w_statistics_type_args) = 1 /\
-  direct_children (explain_alter_command 0 w_statistics_type_args) = 1 /\
-  check_lines (explain_alter_command 0 w_statistics_type_args) = false.
 Proof. vm_compute. repeat split. Qed.
 
 (* ADD COLUMN with cmd.Settings set (the tally is shared with MODIFY COLUMN, the emission is not);
